@@ -42,16 +42,41 @@ fn c04_o1_finish_origin_kind() {
     std::mem::forget(done);
 }
 
-// @verif prop=NONE obl=X tier=thorough bounds="probe: prepare_completion on a fresh ActiveQuery"
+// @verif prop=C01,C04,C03 obl=O1 tier=quick bounds="a frame (not inside the query stack: a frame stored in the stack's Vec loses its emptiness facts and drags hashbrown drain + sort into the formula) after one symbolic operation (untracked read at `now` or a revision-only read at r <= now < 2^40); then completion"
+// @+ encodes="ActiveQuery::new, ActiveQuery::add_untracked_read, ActiveQuery::add_changed_at, ActiveQuery::stamp, ActiveQuery::prepare_completion, DisambiguatorMap::clear, IdentityMap::drain, QueryRevisionsExtra::new, QueryCompletion::finish"
+/// C01-O1a/C04-O1: completing a frame carries exactly its recorded stamp into the stored revisions; the stored origin
+/// is DerivedUntracked iff an untracked read was recorded; a frame without cycle heads completes as final.
 #[kani::proof]
 #[kani::unwind(4)]
 #[kani::stub(real_catch_unwind, stub_catch_unwind)]
-fn x_aq_prepare_completion() {
+fn c01_o1_frame_completion() {
     let mut q = ActiveQuery::new(key(3, 0, 0));
-    q.add_untracked_read(Revision::from(5));
+    let now: usize = kani::any();
+    kani::assume(1 <= now && now < REV_MAX);
+    let untracked: bool = kani::any();
+    let r: usize = kani::any();
+    kani::assume(1 <= r && r <= now);
+    if untracked {
+        q.add_untracked_read(Revision::from(now));
+    } else {
+        q.add_changed_at(Revision::from(r));
+    }
+    let stamp = q.stamp();
     let c = q.prepare_completion(IterationStamp::default(), false);
-    assert!(c.untracked_read && c.verified_final);
-    std::mem::forget(c);
+    let done = c.finish(q.input_outputs.drain(..));
+    let rv = &done.revisions;
+    assert!(rv.changed_at == stamp.changed_at && rv.durability == stamp.durability, "C01: completion does not carry the recorded stamp");
+    if untracked {
+        assert!(rv.durability == Durability::LOW && rv.changed_at.as_usize() == now, "C04: untracked read did not force (LOW, now)");
+    } else {
+        assert!(rv.durability == Durability::NEVER_CHANGE && rv.changed_at.as_usize() == r);
+    }
+    assert!(rv.is_derived_untracked() == untracked, "C04: the untracked-read flag is not reflected in the stored origin");
+    assert!(rv.verified_final.load(std::sync::atomic::Ordering::Relaxed), "C01: a query without cycle heads did not complete as final");
+    assert!(done.stale_tracked_structs.is_empty());
+    kani::cover!(untracked);
+    kani::cover!(!untracked && r > 1);
+    std::mem::forget(done);
     std::mem::forget(q);
 }
 
